@@ -22,7 +22,7 @@ def run(tier, seed, t0):
     n1 = 6000 if thorough else 800
     cases = vlib.fan_out([q, "c04seq", "--seed", str(seed), "--tier", tier], n1, engine="native-sequential", case_timeout=60, crash_policy=pol)
     n2 = 640 if thorough else 64
-    c2 = vlib.fan_out([q, "c04conc", "--seed", str(seed + 1), "--tier", tier], n2, engine="native-concurrent", case_timeout=150, crash_policy=pol)
+    c2 = vlib.fan_out([q, "c04conc", "--seed", str(seed + 1), "--tier", tier], n2, engine="native-concurrent", case_timeout=150, crash_policy=pol, confirm_timing=True)
     for c in c2:
         c.idx += 1_000_000
     cases += c2
